@@ -645,6 +645,42 @@ func (h *Hashgraph) SetWireInfo(event *Event) error {
 	return nil
 }
 
+// setFrameEventWireInfo sets the wire fields of an Event that was received in a
+// Frame. Unlike SetWireInfo, it does not require the self-parent to be in the
+// Store (the oldest Events of a Root have parents below the Frame): an Event's
+// index is its self-parent's index plus one. An other-parent that is not in the
+// Store cannot be described in wire format and is left out.
+func (h *Hashgraph) setFrameEventWireInfo(event *Event) {
+	creator, ok := h.Store.RepertoireByPubKey()[event.Creator()]
+	if !ok {
+		return
+	}
+
+	selfParentIndex := -1
+	otherParentCreatorID := uint32(0)
+	otherParentIndex := -1
+
+	if len(event.Body.Parents) == 2 {
+		if event.SelfParent() != "" {
+			selfParentIndex = event.Index() - 1
+		}
+
+		if event.OtherParent() != "" {
+			if otherParent, err := h.Store.GetEvent(event.OtherParent()); err == nil {
+				if otherParentCreator, ok := h.Store.RepertoireByPubKey()[otherParent.Creator()]; ok {
+					otherParentCreatorID = otherParentCreator.ID()
+					otherParentIndex = otherParent.Index()
+				}
+			}
+		}
+	}
+
+	event.SetWireInfo(selfParentIndex,
+		otherParentCreatorID,
+		otherParentIndex,
+		creator.ID())
+}
+
 //Remove processed Signatures from SigPool
 func (h *Hashgraph) removeProcessedSignatures(processedSignatures map[string]bool) {
 	for k := range processedSignatures {
@@ -790,6 +826,14 @@ func (h *Hashgraph) InsertFrameEvent(frameEvent *FrameEvent) error {
 	if err != nil {
 		return err
 	}
+
+	// The private fields do not travel with a Frame. FrameEvents are inserted
+	// in consensus order, which is a topological order; recompute the wire
+	// fields so that the Event can later be served to other peers in wire
+	// format, in topological order.
+	event.topologicalIndex = h.topologicalIndex
+	h.topologicalIndex++
+	h.setFrameEventWireInfo(event)
 
 	// Init EventCoordinates.
 	if err := h.initEventCoordinates(event); err != nil {
